@@ -1,8 +1,249 @@
 //! C15: record -> persist -> lose the source -> replay.
+//!
+//! The trace is a recorded history of the engine<->adapter pull protocol and
+//! `assert_interpreted_results` is its replayer, so the check is: run through
+//! `AdapterTap<SimAdapter>`, rows must equal the untapped run; serialise to RON, deserialise,
+//! compare; replay from the deserialised trace alone (the simulated data source must see no
+//! event); also replay a cancelled prefix with `complete = false`.
 
-use crate::checks::{CaseBridge, HarnessError};
+use std::cell::RefCell;
+use std::collections::BTreeMap;
+use std::panic::{AssertUnwindSafe, catch_unwind};
+use std::rc::Rc;
+use std::sync::Arc;
+
+use trustfall_core::interpreter::execution::interpret_ir;
+use trustfall_core::interpreter::replay::assert_interpreted_results;
+use trustfall_core::interpreter::trace::{AdapterTap, Trace, tap_results};
+use trustfall_core::ir::FieldValue;
+
+use crate::adapter::{EventCapExceeded, HarnessBug, SchedCfg, SimAdapter};
+use crate::checks::{CaseBridge, HarnessError, Violation, ending_name, harness_check_pub};
+use crate::runner::{Ending, ExecOpts, exec, make_sim, row_to_model, take_panic};
 use crate::tape::Tape;
 
-pub fn case_c15(_cx: &mut CaseBridge<'_, '_>, _sched: &mut Tape) -> Result<(), HarnessError> {
-    Err(HarnessError("C15 not built yet".into()))
+type RawRow = BTreeMap<Arc<str>, FieldValue>;
+
+enum TapOutcome {
+    Ok { rows: Vec<RawRow>, trace: Trace<u32>, stopped: bool, events: u64 },
+    Panic(crate::runner::PanicInfo),
+    Cap,
+    Harness(String),
+}
+
+fn tapped_run(
+    cx: &CaseBridge<'_, '_>,
+    cfg: SchedCfg,
+    sched: &mut Tape,
+    stop_after: Option<usize>,
+) -> (TapOutcome, Rc<RefCell<crate::adapter::Sim>>) {
+    let w = cx.w;
+    let t = std::mem::replace(sched, Tape::replaying(vec![]));
+    let sim = make_sim(w, cfg, t, false, 400 * cx.model.steps + 200_000);
+    let adapter = SimAdapter::new(sim.clone());
+    let trace = Trace::new(w.compiled.ir_query.clone(), w.args.clone());
+    let tracer = Rc::new(RefCell::new(trace));
+    #[allow(clippy::arc_with_non_send_sync)]
+    let tap = Arc::new(AdapterTap::new(adapter, tracer));
+    take_panic();
+    let res = catch_unwind(AssertUnwindSafe(|| {
+        let it = interpret_ir(tap.clone(), w.compiled.clone(), w.args_arc.clone())
+            .map_err(|e| format!("{e}"))?;
+        let mut it = tap_results(tap.clone(), it);
+        let mut rows = vec![];
+        let mut stopped = false;
+        loop {
+            if let Some(k) = stop_after {
+                if rows.len() >= k {
+                    stopped = true;
+                    break;
+                }
+            }
+            match it.next() {
+                Some(r) => rows.push(r),
+                None => break,
+            }
+            if rows.len() > 6000 {
+                std::panic::panic_any(EventCapExceeded);
+            }
+        }
+        drop(it);
+        Ok::<_, String>((rows, stopped))
+    }));
+    *sched = sim.try_borrow().map(|s| s.sched.clone()).unwrap_or_else(|_| Tape::replaying(vec![]));
+    let out = match res {
+        Ok(Ok((rows, stopped))) => match Arc::try_unwrap(tap) {
+            Ok(tap) => {
+                let trace = tap.finish();
+                let events = sim.borrow().events;
+                TapOutcome::Ok { rows, trace, stopped, events }
+            }
+            Err(_) => TapOutcome::Harness("AdapterTap still shared after the run".into()),
+        },
+        Ok(Err(e)) => TapOutcome::Harness(format!("arguments rejected in tapped run only: {e}")),
+        Err(p) => {
+            if p.downcast_ref::<EventCapExceeded>().is_some() {
+                TapOutcome::Cap
+            } else if let Some(h) = p.downcast_ref::<HarnessBug>() {
+                TapOutcome::Harness(h.0.clone())
+            } else {
+                let info = take_panic().unwrap_or(crate::runner::PanicInfo {
+                    message: "?".into(),
+                    location: "?".into(),
+                });
+                if info.location.starts_with("src/") {
+                    TapOutcome::Harness(format!("{} at {}", info.message, info.location))
+                } else {
+                    TapOutcome::Panic(info)
+                }
+            }
+        }
+    };
+    (out, sim)
+}
+
+pub fn case_c15(cx: &mut CaseBridge<'_, '_>, sched: &mut Tape) -> Result<(), HarnessError> {
+    let w = cx.w;
+    // direct execution, lazy schedule
+    let direct = {
+        let mut o = ExecOpts::new(SchedCfg::lazy());
+        o.event_cap = 400 * cx.model.steps + 200_000;
+        let t = std::mem::replace(sched, Tape::replaying(vec![]));
+        let e = exec(w, o, t);
+        *sched = e.sched.clone();
+        harness_check_pub(&e)?;
+        cx.absorb(&e);
+        e
+    };
+    if matches!(direct.ending, Ending::ArgsRejected(_)) {
+        cx.stats.discarded = Some("args_rejected".into());
+        return Ok(());
+    }
+    if !matches!(direct.ending, Ending::Completed) {
+        cx.stats.inconclusive.push(format!("direct: {}", ending_name(&direct)));
+        return Ok(());
+    }
+    let n = direct.raw_rows.len();
+    // schedule below the tap: S0, or read-ahead inside next() (F2/F3), eager neighbor iterators
+    let cfg = if sched.draw(2) == 1 {
+        let mut c = SchedCfg { random: true, ..Default::default() };
+        c.allow_refill = true;
+        c.allow_eager_neighbors = sched.draw(2) == 1;
+        c.allow_start_collect = sched.draw(2) == 1;
+        c
+    } else {
+        SchedCfg::lazy()
+    };
+    // Recording always runs to completion: the replayer (`assert_interpreted_results`) supports a
+    // row *prefix* over a complete trace (cancellation on the replay side), not a trace whose
+    // recording was cancelled -- it always asks the engine for one row more than expected.
+    let stop_after: Option<usize> = None;
+    let replay_prefix = if n > 0 && sched.draw(3) == 2 { Some(sched.draw(n as u32 + 1) as usize) } else { None };
+    let (out, sim) = tapped_run(cx, cfg.clone(), sched, stop_after);
+    cx.stats.execs += 1;
+    let label = format!(
+        "{}{}",
+        if cfg.random { "read-ahead-below-tap" } else { "lazy" },
+        if replay_prefix.is_some() { "+replay-prefix" } else { "" }
+    );
+    let (rows, trace, stopped) = match out {
+        TapOutcome::Harness(m) => return Err(HarnessError(format!("C15 tapped run: {m}"))),
+        TapOutcome::Cap => {
+            cx.push("tapped-run-made-no-progress", format!("[{label}] direct run completes"), "cap");
+            return Ok(());
+        }
+        TapOutcome::Panic(info) => {
+            cx.violations.push(Violation {
+                property: cx.prop.to_string(),
+                class: "panic-only-when-tracing".into(),
+                detail: format!(
+                    "[{label}] direct run returns {n} rows; through AdapterTap the engine panicked at {}: {}",
+                    info.location,
+                    info.message.lines().next().unwrap_or("")
+                ),
+                fingerprint: info.fingerprint(),
+            });
+            return Ok(());
+        }
+        TapOutcome::Ok { rows, trace, stopped, events } => {
+            cx.stats.events += events;
+            cx.stats.fires.add(&sim.borrow().fires);
+            (rows, trace, stopped)
+        }
+    };
+    if replay_prefix.is_some() {
+        cx.stats.probes.insert("c15_replay_cancelled_after_prefix".into());
+    }
+    if cfg.random {
+        cx.stats.probes.insert("c15_read_ahead_below_tap".into());
+    }
+    // (1) tapped rows == direct rows (prefix when cancelled)
+    let want = &direct.raw_rows[..rows.len().min(n)];
+    let same = rows.len() <= n
+        && (stopped || rows.len() == n)
+        && rows.iter().zip(want.iter()).all(|(a, b)| {
+            let (ma, mb) = (row_to_model(a), row_to_model(b));
+            ma.len() == mb.len() && ma.iter().zip(mb.iter()).all(|((k1, v1), (k2, v2))| k1 == k2 && v1.same(v2))
+        });
+    if !same {
+        cx.push(
+            "rows-through-tracing-adapter-differ-from-direct-execution",
+            format!("[{label}] direct {n} rows, tapped {} rows", rows.len()),
+            "tap-rows",
+        );
+        return Ok(());
+    }
+    // (2) persist: RON round trip
+    let text = match ron::to_string(&trace) {
+        Ok(t) => t,
+        Err(e) => {
+            cx.push("trace-cannot-be-serialised", format!("[{label}] {e}"), "ser");
+            return Ok(());
+        }
+    };
+    let back: Trace<u32> = match ron::from_str(&text) {
+        Ok(t) => t,
+        Err(e) => {
+            cx.push("serialised-trace-cannot-be-deserialised", format!("[{label}] {e}"), "de");
+            return Ok(());
+        }
+    };
+    if back != trace {
+        cx.push("trace-changed-by-serialisation-round-trip", format!("[{label}] {} ops", trace.ops.len()), "roundtrip");
+        return Ok(());
+    }
+    drop(trace);
+    // (3) lose the source, replay from the deserialised trace alone
+    let events_before = sim.borrow().events;
+    take_panic();
+    let res = catch_unwind(AssertUnwindSafe(|| {
+        assert_interpreted_results(&back, &rows, true);
+        if let Some(k) = replay_prefix {
+            assert_interpreted_results(&back, &rows[..k.min(rows.len())], false);
+        }
+    }));
+    let events_after = sim.borrow().events;
+    if events_after != events_before {
+        cx.push(
+            "replay-consulted-the-original-data-source",
+            format!("[{label}] {} adapter events during replay", events_after - events_before),
+            "source",
+        );
+    }
+    if res.is_err() {
+        let info = take_panic().unwrap_or(crate::runner::PanicInfo { message: "?".into(), location: "?".into() });
+        cx.violations.push(Violation {
+            property: cx.prop.to_string(),
+            class: "replay-of-recorded-trace-fails".into(),
+            detail: format!(
+                "[{label}] {} rows recorded, {} trace ops; replay failed at {}: {}",
+                rows.len(),
+                back.ops.len(),
+                info.location,
+                info.message.lines().next().unwrap_or("")
+            ),
+            fingerprint: format!("replay-of-recorded-trace-fails|{}", info.fingerprint()),
+        });
+    }
+    Ok(())
 }
